@@ -79,6 +79,12 @@ func (d *DebugDialer) Dial(ctx context.Context, urlstr string) (conn net.Conn, b
 
 		onResponse(p[:n])
 
+		if br == nil && err == nil && len(p) > h {
+			// Dialer consumed exactly the response head and released its
+			// reader, but the prefetching reader has already taken bytes
+			// that follow the head from conn. Hand them back to the caller.
+			br = bufio.NewReader(nil)
+		}
 		if br != nil {
 			// If br is non-nil, then it mean two things. First is that
 			// handshake is OK and server has sent additional bytes – probably
